@@ -320,6 +320,7 @@ func (ex *Exec) applyContract(st *State, in ssa.Instruction, site string, con *C
 	}
 	env := ex.contractEnv(st, con, ci, args)
 	short := shortFuncName(con.Key)
+	ex.callSiteObligations(st, in, site, lastName(con.Key), args)
 	for _, cl := range con.clauses("requires") {
 		g := ex.evalClause(env, cl, con)
 		ex.obligeNamed(st, in, "pre", short+"."+cl.Label+"@"+site, g, cl.Src, ex.propsOf(cl, con))
@@ -666,5 +667,33 @@ func (ex *Exec) havocAssigns(st *State, con *Contract, env *SpecEnv) {
 				j, l.lo, j, j, l.hi, na, j, cur, l.ref, j, na, j))
 			st.hset(l.heap, sx("store", cur, l.ref, na))
 		}
+	}
+}
+
+// callSiteObligations emits the caller's own obligations attached to its calls of a given callee
+// (clause kind call_requires): the expression sees the caller's variables and arg0..argN.
+func (ex *Exec) callSiteObligations(st *State, in ssa.Instruction, site, calleeName string, args []Val) {
+	if ex.cur == nil || ex.cur.con == nil || st.fr == nil || !st.fr.top {
+		return
+	}
+	con := ex.cur.con
+	for _, cl := range con.clauses("call_requires") {
+		if cl.Callee != calleeName {
+			continue
+		}
+		env := ex.funcEnv(st)
+		for k, nb := range st.fr.names {
+			if nb.isAddr {
+				env.addr = ensureAddrMap(env.addr)
+				env.addr[k] = nb.v
+			} else if nb.v.T != "" {
+				env.vars[k] = nb.v
+			}
+		}
+		for i, a := range args {
+			env.vars[fmt.Sprintf("arg%d", i)] = a
+		}
+		g := ex.evalClause(env, cl, con)
+		ex.obligeNamed(st, in, "callsite", cl.Label+"@"+site, g, cl.Src, ex.propsOf(cl, con))
 	}
 }
